@@ -148,6 +148,10 @@ impl ChronyOperations for GhostPoller {
         self.reply.take()
     }
     fn is_within_grace_period(&self) -> bool {
+        unsafe {
+            GRACE_CALLS += 1;
+            GRACE_TICK = next_tick();
+        }
         self.grace
     }
 }
